@@ -16,6 +16,7 @@ BUILD = os.path.join(V, ".build")
 LEAN = os.path.join(V, "lean")
 GOENV = dict(os.environ, GOFLAGS="-mod=mod", GOPROXY="off", GOSUMDB="off", GOTOOLCHAIN="local",
              CGO_LDFLAGS=os.environ.get("CGO_LDFLAGS", ""))
+CUR_PROP = "x"   # set by bin/check
 ALLOWED_AXIOMS = {"propext", "Classical.choice", "Quot.sound"}
 BANNED = re.compile(r"\b(sorry|admit|native_decide|bv_decide|implemented_by|unsafe)\b|^\s*axiom\s|maxHeartbeats\s+0\b", re.M)
 
@@ -178,19 +179,24 @@ def build_harness(name, race=False):
     """builds /verif/harness/cmd/<name> INSIDE the repo's module (via overlay) from /repo's current tree"""
     ov = overlay()
     binp = os.path.join(BUILD, "h_" + name + ("_race" if race else ""))
-    cmd = ["go", "build", "-tags", "verif", "-overlay", ov, "-ldflags=-checklinkname=0", "-o", binp]
+    tmpb = binp + f".tmp{os.getpid()}"   # build to a private name, then rename: concurrent checks share the final path
+    cmd = ["go", "build", "-tags", "verif", "-overlay", ov, "-ldflags=-checklinkname=0", "-o", tmpb]
     if race:
         cmd.append("-race")
     cmd.append("./zz_verif/cmd/" + name)
     rc, out = sh(cmd, cwd=REPO, env=GOENV, timeout=3000)
     out = "\n".join(l for l in out.splitlines() if "/usr/bin/ld:" not in l and not l.startswith("# "))
+    if rc == 0:
+        os.replace(tmpb, binp)
+    elif os.path.exists(tmpb):
+        os.remove(tmpb)
     return (binp if rc == 0 else None), out
 
 
 def run_engine(eng, seed, n, tier, tag, replay=None, extra=None, timeout=3000):
     """runs harness + model driver; returns dict(stats, diffs=[(lineno, op, impl, model)], ops_path, error)"""
     hb = os.path.join(BUILD, "h_" + eng["harness"])
-    base = os.path.join(BUILD, f"{eng['harness']}_{tag}")
+    base = os.path.join(BUILD, f"{eng['harness']}_{CUR_PROP}_{tag}")  # per property: engines shared by several properties must not clobber each other
     ops, impl, model, stats = base + ".ops", base + ".impl", base + ".model", base + ".stats"
     for p in (ops, impl, model, stats):
         if os.path.exists(p):
